@@ -20,6 +20,7 @@ enum Kind { K_KICKX = 0, K_KICKY, K_RF_LIN, K_RF_SIN, K_DRIFT, K_WAKE, K_FP, K_I
 static const char* KNAME[] = {"kick_x", "kick_y", "rf_linear", "rf_sinus", "drift", "wake", "fokker_planck", "identity"};
 
 struct Spec {
+    bool clamp = false;   // InterpolateClamped (a limiter where implemented; the self-consistency checks C08 must hold with it too)
     Kind kind = K_KICKX;
     uint32_t n = 32, nb = 1;
     int it = 4;                 // interpolation order
@@ -82,23 +83,23 @@ inline Built build(const Spec& s, uint32_t nb_now) {
     auto it = (SourceMap::InterpolationType)s.it;
     switch (s.kind) {
     case K_KICKX: case K_KICKY: {
-        auto* k = new KickMap(b.in, b.out, it, false, s.kind == K_KICKX ? KickMap::Axis::x : KickMap::Axis::y, nullptr);
+        auto* k = new KickMap(b.in, b.out, it, s.clamp, s.kind == K_KICKX ? KickMap::Axis::x : KickMap::Axis::y, nullptr);
         b.map.reset(k); b.kick = k; b.kick_along_x = (s.kind == K_KICKX);
         break; }
     case K_RF_LIN: {
-        auto* k = new RFKickMap(b.in, b.out, (meshaxis_t)s.angle, (frequency_t)s.fRF, it, false, nullptr);
+        auto* k = new RFKickMap(b.in, b.out, (meshaxis_t)s.angle, (frequency_t)s.fRF, it, s.clamp, nullptr);
         b.map.reset(k); b.kick = k; break; }
     case K_RF_SIN: {
-        auto* k = new RFKickMap(b.in, b.out, (timeaxis_t)s.revpart, (meshaxis_t)s.V, (frequency_t)s.fRF, (meshaxis_t)s.V0, it, false, nullptr);
+        auto* k = new RFKickMap(b.in, b.out, (timeaxis_t)s.revpart, (meshaxis_t)s.V, (frequency_t)s.fRF, (meshaxis_t)s.V0, it, s.clamp, nullptr);
         b.map.reset(k); b.kick = k; break; }
     case K_DRIFT: {
-        auto* k = new DriftMap(b.in, b.out, s.slip, (meshaxis_t)s.E0, it, false, nullptr);
+        auto* k = new DriftMap(b.in, b.out, s.slip, (meshaxis_t)s.E0, it, s.clamp, nullptr);
         b.map.reset(k); b.kick = k; b.kick_along_x = true; break; }
     case K_WAKE: {
         b.imp = std::make_shared<Impedance>(s.Z, (frequency_t)1e12);
         b.field.reset(new ElectricField(b.in, b.imp, s.buckets, s.spacing, nullptr, s.frev, (meshaxis_t)(s.frev * s.dt),
                                         s.Ib, s.E0, s.sE, s.dt));
-        auto* k = new WakePotentialMap(b.in, b.out, b.field.get(), it, false, nullptr);
+        auto* k = new WakePotentialMap(b.in, b.out, b.field.get(), it, s.clamp, nullptr);
         b.map.reset(k); b.kick = k; b.wake = k; break; }
     case K_FP: {
         b.map.reset(new FokkerPlanckMap(b.in, b.out, s.n, s.n, (FokkerPlanckMap::FPType)s.fptype,
